@@ -7,9 +7,10 @@ CONSTANTS
   MaxArgs = 2
   MaxQSize = 3
   MaxStr = 2
+  Kinds = {"shape", "query", "string", "tagvalue", "queryvalue"}
   ExprHeads = TRUE
   GroupQueries = FALSE
-  GroupPipeHead = FALSE
+  GroupPipeHead = "none"
   LexerUnescapes = FALSE
   EscapeTagValues = FALSE
 CONSTRAINT Emit
